@@ -227,3 +227,41 @@ Theorem C12_float_decreasing_is_mirror :
        end.
 Proof. exact isotonic_mean_f_decreasing. Qed.
 Print Assumptions C12_float_decreasing_is_mirror.
+
+(* ---- monotonicity of the binary64 twin when no NaN occurs (proofs/PavaFloatMonotone.v).  These three theorems - and
+   only these - rest on the standard library's specification axioms of the comparison primitives
+   (FloatAxioms.eqb_spec / ltb_spec / leb_spec), listed by Print Assumptions next to the primitive operations. ---- *)
+From MD Require Import proofs.PavaFloatMonotone.
+
+(* for EVERY binary64 input: if the result contains no NaN it is non-decreasing (non-increasing for increasing=False) as
+   floats, whatever the rounding errors of the block means were *)
+Theorem C12_float_monotone :
+  forall (y : list float) (w : option (list float)) (inc : bool) (x : list float) (r : list nat),
+    isotonic_mean_f y w inc = FOk (x, r) -> no_nan x ->
+    forall (i : nat) (d : float), (S i < length x)%nat ->
+      if inc then (nth i x d <=? nth (S i) x d)%float = true else (nth (S i) x d <=? nth i x d)%float = true.
+Proof. exact isotonic_mean_f_monotone. Qed.
+Print Assumptions C12_float_monotone.
+
+Theorem C12_float_monotone_pava :
+  forall y w : list float, no_nan (fst (pava_f y w)) ->
+    forall (i : nat) (d : float), (S i < length (fst (pava_f y w)))%nat ->
+      (nth i (fst (pava_f y w)) d <=? nth (S i) (fst (pava_f y w)) d)%float = true.
+Proof. exact pava_f_monotone. Qed.
+Print Assumptions C12_float_monotone_pava.
+
+(* ... and the values on both sides of every inner block boundary differ: strictly increasing as floats *)
+Theorem C12_float_boundary_strict :
+  forall y w : list float, no_nan (fst (pava_f y w)) ->
+    forall (j : nat) (d : float), (1 <= j)%nat -> (S j < length (snd (pava_f y w)))%nat ->
+      (nth (nth j (snd (pava_f y w)) 0%nat - 1) (fst (pava_f y w)) d <?
+       nth (nth j (snd (pava_f y w)) 0%nat) (fst (pava_f y w)) d)%float = true.
+Proof. exact pava_f_boundary_strict. Qed.
+Print Assumptions C12_float_boundary_strict.
+
+(* the hypothesis no_nan is needed: opposite huge values give inf - inf = NaN blocks and a non-monotone result *)
+Theorem C12_float_nan_breaks_monotonicity :
+  let x := fst (pava_f [3; 0x1.8p+664; -0x1.8p+664; 0; 4]%float [1; 0x1.8p+664; 0x1.8p+664; 2; 1]%float) in
+  existsb is_nan x = true /\ (nth 0 x 0 <=? nth 1 x 0)%float = false.
+Proof. exact nan_breaks_monotonicity. Qed.
+Print Assumptions C12_float_nan_breaks_monotonicity.
